@@ -58,6 +58,14 @@ def shards(tier, seed):
         if nn == "none":
             continue
         out.append({"ob": 2, "ln": ln, "nn": nn, "nmax": nmax, "seed": 51 + seed})
+    # metrics whose value for one row could depend on the other rows of the call (scipy derives the variance /
+    # covariance from the stacked inputs): row locality must hold there too
+    for metric in ("seuclidean", "mahalanobis", "cosine"):
+        for ln in ("eg0", "ucb"):
+            out.append({"ob": 2, "ln": ln, "nn": ["Radius", {"radius": 1.5, "metric": metric}], "nmax": nmax,
+                        "seed": 51 + seed})
+            out.append({"ob": 2, "ln": ln, "nn": ["KNearest", {"k": 3, "metric": metric}], "nmax": nmax,
+                        "seed": 51 + seed})
     bound = 1 if tier == "quick" else 2
     parts = 1 if tier == "quick" else 8
     for ln in FIT_LPS:
@@ -205,10 +213,10 @@ def ob2(shard, acc):
                             return ops.call(m, call, q)
                     for ch, out in sched.explore_choices(run, 0):
                         acc.traces += 1
-                        acc.case((ln, nn, call, n, str(comp), sem, tuple(ch.choices)))
-                        acc.state((ln, nn, call, n, str(comp), sem, tuple(ch.choices)))
+                        acc.case((ln, str(nn), call, n, str(comp), sem, tuple(ch.choices)))
+                        acc.state((ln, str(nn), call, n, str(comp), sem, tuple(ch.choices)))
                         if not ops.same(ref, out):
-                            acc.violation("ob2 %s/%s %s %s" % (ln, nn, call, sem),
+                            acc.violation("ob2 %s/%s %s %s" % (ln, nn if isinstance(nn, str) else nn[0] + ":" + nn[1].get("metric", ""), call, sem),
                                           {"ob": 2, "cfg": cfg, "call": call, "q": q, "comp": comp, "sem": sem,
                                            "prefix": list(ch.choices)},
                                           "%s(%d rows) split %r, %s workers, completion order %r: %r; n_jobs=1 gives %r" % (
